@@ -33,6 +33,7 @@ def gen(t):
     a('w_aspect', '%s& o, const %s& f' % (E, F), 'o = f.aspect();')
     a('w_nz2d', '%s& o, const %s& f, const %s& z' % (E, F, E), 'o = f.normalizedZToDepth(z);')
     a('w_d2z', 'long& o, const %s& f, const %s& d, const long& lo, const long& hi' % (F, E), 'o = f.DepthToZ(d, lo, hi);')
+    a('w_z2d', '%s& o, const %s& f, const long& z, const long& lo, const long& hi' % (E, F), 'o = f.ZToDepth(z, lo, hi);')
     a('w_srad', '%s& o, const %s& f, const %s& p, const %s& r' % (E, F, V3, E), 'o = f.screenRadius(p, r);')
     a('w_wrad', '%s& o, const %s& f, const %s& p, const %s& r' % (E, F, V3, E), 'o = f.worldRadius(p, r);')
     a('w_planes', 'Plane3<%s> (&p)[6], const %s& f' % (E, F), 'f.planes(p);')
@@ -310,6 +311,39 @@ def main(rep, ws, tier):
                 return (None, 'mutually inverse rational maps; 2*z-1 equals the projected clip depth of a point with z = depth', fn_where(S.fn))
             return f
         ob('depth maps[perspective]', 'R16.depth', depth('persp'))
+        def zdepth(kind, exc):
+            """ZToDepth(z, zmin, zmax) = normalizedZToDepth((z - zmin)/(zmax - zmin)) for zmin <= z <= zmax + 1 (integers
+            taken as exact reals: no overflow in long -> int -> T)"""
+            def f():
+                S = S_('w_nz2d'); SZ = S_('w_z2dExc' if exc else 'w_z2d')
+                dz = fix_ortho([S.out('a0', 0, sz, lt)], 'a1', t, kind == 'ortho')[0]
+                zz = fix_ortho([SZ.out('a0', 0, sz, lt)], 'a1', t, kind == 'ortho')[0]
+                if zz.op == 'throw' or zz is None: return ('no value', None, fn_where(SZ.fn))
+                z, lo, hi = T.inp('a2', 0, 8, 'i64'), T.inp('a3', 0, 8, 'i64'), T.inp('a4', 0, 8, 'i64')
+                for _ in range(8):
+                    pre = {}
+                    for c in P.all_conds(zz):
+                        if c.op == 'icmp' and c.attr in ('slt', 'sgt', 'sle', 'sge') and any(w is z for w in c.args): pre[c] = False if c.attr in ('sgt', 'slt') and c.args[0 if c.attr == 'slt' else 1] is not z else None      # zval > zmax + 1: not on the in-range path
+                        elif c.op == 'icmp' and c.attr in ('eq', 'ne') and any(w.op == 'const' and w.attr[1] == 0 for w in c.args): pre[c] = (c.attr == 'ne')     # zdiff == 0: the throwing / degenerate call
+                        elif c.op == 'fcmp' and c.attr in ('olt', 'ole') and any(w.op == 'fmul' and any(u.op == 'const' and abs(T.const_value(u)) > 10 ** 30 for u in w.args) for w in c.args): pre[c] = False   # overflow guard of the checked form
+                    pre = {c: v for c, v in pre.items() if v is not None}
+                    if not pre: break
+                    zz = T.resolve(zz, pre)
+                left = [c for c in P.all_conds(zz) if P.abs_idiom(T.ite(c, T.TRUE, T.FALSE)) is None]
+                if zz.op == 'ite' and zz.args[1].op == 'throw': zz = zz.args[2]
+                ctx = P.Ctx(); ctx.int_exact = True
+                got = ctx.rat(zz)
+                zdiff = ctx.radd(atom(ctx, hi), neg(atom(ctx, lo)))
+                fz = ctx.rdiv(ctx.radd(atom(ctx, z), neg(atom(ctx, lo))), zdiff)
+                D = ctx.rat(dz)
+                want = subst_rat(ctx, D, ctx.key(agg.scalar_in('a2', t)), fz)
+                if not ctx.requal(got, want):
+                    return ('%s: ZToDepth%s(z, zmin, zmax) = %s, expected normalizedZToDepth((z - zmin)/(zmax - zmin)) = %s' % (kind, 'Exc' if exc else '', P.show_rat(got, ctx)[:140], P.show_rat(want, ctx)[:140]), None, fn_where(SZ.fn))
+                return (None, 'normalizedZToDepth((z - zmin)/(zmax - zmin)) on the in-range path', fn_where(SZ.fn))
+            return f
+        for kind_ in ('persp', 'ortho'):
+            for exc_ in (False,):       # the checked twin agrees with the unchecked one by C07's R07.same
+                ob('ZToDepth%s[%s]' % ('Exc' if exc_ else '', kind_), 'R16.depth', zdepth(kind_, exc_))
         ob('depth maps[orthographic]', 'R16.depth', depth('ortho'))
 
         def radius():
